@@ -27,9 +27,10 @@ type c20task struct {
 }
 
 type c20case struct {
-	Vars  [][2]string `json:"vars"` // name, value
-	Tasks []c20task   `json:"tasks"`
-	Req   []string    `json:"req"`
+	Vars   [][2]string `json:"vars"` // name, value
+	Tasks  []c20task   `json:"tasks"`
+	Req    []string    `json:"req"`
+	BadEnv bool        `json:"bad_dotenv"` // a .env file that cannot be parsed sits next to the spokfile
 }
 
 func (k c20case) key() string { b, _ := json.Marshal(k); return string(b) }
@@ -99,6 +100,7 @@ func c20Gen(r *core.Rng) c20case {
 		k.Req = []string{k.Tasks[len(k.Tasks)-1].Name}
 	}
 	core.Shuffle(r, k.Req)
+	k.BadEnv = r.Chance(6)
 	return k
 }
 
@@ -125,7 +127,7 @@ func (k c20case) cmdText(t c20task, i int, logPath string, tpl bool) string {
 		// a command that prints nothing at all
 		return fmt.Sprintf("printf '%%s\\n' %s.%d >> %s", c20ascii(t.Name), i, logPath)
 	}
-	return fmt.Sprintf("printf '%%s\\n' %s.%d >> %s && printf '%%s\\r\\n' 'O.%s.%d%s \"q\" \\b' && printf '%%s\\n' 'E.%s.%d' >&2", c20ascii(t.Name), i, logPath, c20ascii(t.Name), i, tag, c20ascii(t.Name), i)
+	return fmt.Sprintf("printf '%%s\\n' %s.%d >> %s && printf '%%s\\r\\n' 'O.%s.%d%s \"q\" \\b' && printf '\\033[31mred\\033[0m\\a\\n' && printf '%%s\\n' 'E.%s.%d' >&2", c20ascii(t.Name), i, logPath, c20ascii(t.Name), i, tag, c20ascii(t.Name), i)
 }
 
 // c20ascii: command text must be ASCII, task names need not be.
@@ -197,9 +199,27 @@ func c20Judge(c *core.Ctx, k c20case, res *core.ShardResult) (vs []core.Violatio
 	bad := func(clause, format string, args ...any) {
 		vs = append(vs, core.Violation{Property: "C20", Clause: clause, Key: k.key(), Detail: fmt.Sprintf(format, args...) + fmt.Sprintf("\nrequest %v\nspokfile:\n%s", k.Req, text)})
 	}
+	if k.BadEnv {
+		// spok may refuse to run with a .env it cannot read; if it runs, what it prints must still be right
+		_ = os.WriteFile(filepath.Join(sb.Proj, ".env"), []byte("set -a\nthis is not = a valid line\n'\n"), 0o644)
+		probe := core.RunSpok(core.SpokOpts{Bin: c.SpokRace(), Dir: sb.Proj, Home: sb.Home, Args: []string{"--show"}})
+		res.Evaluations++
+		if probe.Exit != 0 {
+			res.Count("bad_dotenv_refused", 1)
+			return
+		}
+		res.Count("bad_dotenv_tolerated", 1)
+	}
+	// the ambient environment happens to hold some of the variables, with the very same values
+	var ambient []string
+	for i, v := range k.Vars {
+		if i%2 == 0 && v[1] != "" {
+			ambient = append(ambient, v[0]+"="+v[1])
+		}
+	}
 	run := func(args ...string) (core.Invocation, []string) {
 		_ = os.Remove(sb.Log)
-		inv := core.RunSpok(core.SpokOpts{Bin: c.SpokRace(), Dir: sb.Proj, Home: sb.Home, Args: args})
+		inv := core.RunSpok(core.SpokOpts{Bin: c.SpokRace(), Dir: sb.Proj, Home: sb.Home, Args: args, Env: ambient})
 		res.Evaluations++
 		return inv, sb.readLog()
 	}
@@ -311,7 +331,7 @@ func c20Judge(c *core.Ctx, k c20case, res *core.ShardResult) (vs []core.Violatio
 				if v := t.UseVar[i]; v != "" && v != "-" {
 					tag = "." + k.varValue(v)
 				}
-				wantOut := fmt.Sprintf("O.%s.%d%s \"q\" \\b\r\n", c20ascii(t.Name), i, tag)
+				wantOut := fmt.Sprintf("O.%s.%d%s \"q\" \\b\r\n\x1b[31mred\x1b[0m\a\n", c20ascii(t.Name), i, tag)
 				wantErr := fmt.Sprintf("E.%s.%d\n", c20ascii(t.Name), i)
 				if t.UseVar[i] == "-" {
 					wantOut, wantErr = "", ""
